@@ -13,6 +13,7 @@ mod c18;
 mod c05;
 mod prog;
 mod c03;
+mod c17;
 
 fn main() {
     let args: Vec<String> = std::env::args().collect();
@@ -37,6 +38,7 @@ fn main() {
         "C13" => c13::run(&mut sink, thorough, seed),
         "C05" => c05::run(&mut sink, thorough, seed),
         "C03" => c03::run(&mut sink, thorough, seed),
+        "C17" => c17::run(&mut sink, thorough, seed),
         "replay" => { /* replay lines are `op args…` on stdin */
             let mut s = String::new();
             use std::io::Read;
@@ -65,6 +67,7 @@ fn replay(sink: &mut common::Sink, toks: &[&str]) {
         "rawtop" | "rawstr" | "rawelems" => c19::replay(sink, toks),
         "esc" | "escbufs" | "hex4" | "hex4s" | "scan" => c05::replay(sink, toks),
         "serc" | "serp" | "serbufs" | "serbufx" | "disp" => c03::replay(sink, toks),
+        "maphist" | "mapeqh" | "mapeq" | "maphash" | "mapsort" => c17::replay(sink, toks),
         _ => eprintln!("cannot replay op {}", toks[0]),
     }
 }
